@@ -141,7 +141,7 @@ def interpret(c, engine):
 
     def edit(rel, content, mode="normal"):
         engine.edit(rel, content, mode)
-        steps.append(("edit", rel, content, mode != "normal"))      # in place / new inode: the mtime is kept
+        steps.append(("edit", rel, content, mode in ("inplace", "newinode")))      # in place / new inode: the mtime is kept
         if content is None:
             cur.pop(rel, None)
         else:
@@ -174,10 +174,12 @@ def interpret(c, engine):
             edit("inc.txt", None)
         elif h == "Dj":
             edit("sub/inc.txt", None)
+        elif h in ("Xi", "Xj"):                      # the include file is replaced by a DIRECTORY of that name
+            edit("inc.txt" if h == "Xi" else "sub/inc.txt", None, "directory")
         elif h == "R":
-            render("sub/main.txt", [("a", "ca%d" % k), ("b", "cb%d" % k)])
+            render("sub/main.txt", c.get("caller") or [("a", "ca%d" % k), ("b", "cb%d" % k)])
         elif h == "Rr":
-            render("main.txt", [("b", "rb%d" % k), ("z", "cz")])
+            render("main.txt", c.get("caller") or [("b", "rb%d" % k), ("z", "cz")])
         elif h[0] == "L":
             rel = OP_PATH[h[1]]
             new = main_content(k) if h[1] == "m" else inc_content("J" if h[1] == "j" else "I", k)
@@ -213,9 +215,13 @@ class RealEngine:
 
     def edit(self, rel, content, mode):
         p = os.path.join(self.T, rel)
+        if os.path.isdir(p):
+            os.rmdir(p)
         if content is None:
             if os.path.exists(p):
                 os.unlink(p)
+            if mode == "directory":
+                os.mkdir(p)
         elif mode == "normal":
             write_file(p, src(content))
         else:
@@ -347,8 +353,8 @@ def python_oracles(keys):
     return mods, attrs
 
 
-ENTRIES = ["os", "osx", "os.path", "o", "os.", "os.*", "*", ".*", "o.*", "os.path.*", ""]
-MODULES = ENTRIES + ["os.pathx", "os.path.sub", "x", "os..", "osx.y", "o.s", "os.*.x"]
+ENTRIES = ["os", "osx", "os.path", "o", "os.", "os.*", "*", ".*", "o.*", "os.path.*", "", "\u00f6s", "\u00f6.*", "0", "None"]
+MODULES = ENTRIES + ["os.pathx", "os.path.sub", "x", "os..", "osx.y", "o.s", "os.*.x", "\u00f6.s", "\u00f6s.x", "0.x", "OS"]
 REAL_MODULES = ["os", "os.path", "posixpath", "json", "json.decoder", "o" + "s"]
 
 
@@ -385,7 +391,7 @@ class C17(Check):
             for L in range(1, maxlen + 1):
                 hists = [h + (r,) for h in itertools.product(ALPHA, repeat=L - 1) for r in ("R", "Rr")]
                 if L >= 4:
-                    k = 200 if tier == "quick" else (1500 if L == 4 else 2500)
+                    k = 80 if tier == "quick" else (1500 if L == 4 else 2500)
                     hists = rng.sample(hists, min(k, len(hists)))
                 for h in hists:
                     n += 1
@@ -407,6 +413,21 @@ class C17(Check):
                 n += 1
                 yield {"kind": 0, "root": root, "cache": cache, "rel": rel,
                        "base": [("a", "CFG"), ("z", "Z")] if n % 3 == 0 else [], "relname": (n % 5 == 0), "history": h}
+        # context values that are falsy / sentinel-like / non-ASCII, colliding between configuration and caller: a
+        # configuration-supplied value ALWAYS overrides, whatever it is
+        values = [None, 0, "", False, [], {}, "None", 0.0, "\u00e4\u2713", -1, "0"]
+        for (root, cache, rel) in ((False, True, True), (True, False, False)):
+            for bv in values:
+                for cv in ("caller", None, 0, ""):
+                    yield {"kind": 0, "root": root, "cache": cache, "rel": rel, "relname": False, "history": ["R", "Rr"],
+                           "base": [("a", bv), ("z", bv)], "caller": [("a", cv), ("b", bv), ("z", cv)]}
+            for cv in values:
+                yield {"kind": 0, "root": root, "cache": cache, "rel": rel, "relname": False, "history": ["R", "Rr"],
+                       "base": [], "caller": [("a", cv), ("b", cv), ("z", cv)]}
+        # an include file replaced by a directory of the same name (the loaders see "not a file"): as if deleted
+        for root, cache, rel in self.configs():
+            for h in (["R", "Xj", "R", "Ej", "R"], ["R", "Xi", "R", "Ei", "R"], ["Xj", "R"]):
+                yield {"kind": 0, "root": root, "cache": cache, "rel": rel, "base": [], "relname": False, "history": h}
         # D18 family: the same mtime-keeping edits with root_dir + cache (jinja2.FileSystemLoader, mtime-only test);
         # and with root_dir without cache, where they must be noticed
         for h in (["R", "Sm", "R"], ["R", "Sj", "R"], ["R", "Sk", "R"], ["R", "Nm", "R"], ["R", "Nj", "R"]):
@@ -485,9 +506,9 @@ class C17(Check):
                     steps.append([0, P(st[1]), ct, bool(st[3])])
                 else:
                     name = st[1].encode() if (c["root"] or c["relname"]) else P(st[1])
-                    steps.append([1, name, [[k.encode(), v.encode()] for k, v in st[2]]])
+                    steps.append([1, name, [[k.encode(), str(v).encode()] for k, v in st[2]]])
             cfg = [[ROOT.encode()] if c["root"] else [], bool(c["cache"]), bool(c["rel"]), ROOT.encode(), False,
-                   [[k.encode(), v.encode()] for k, v in c["base"]]]
+                   [[k.encode(), str(v).encode()] for k, v in c["base"]]]      # a value is what {{ key }} renders: str(v)
             return sx([0, cfg, steps, self.canon(obs)])
         if c["kind"] == 2:
             mods, attrs = python_oracles(c["keys"])
@@ -516,7 +537,8 @@ class C17(Check):
     def show(self, c):
         if c["kind"] == 0:
             return {"root_dir": c["root"], "cache_enabled": c["cache"], "relative_includes": c["rel"],
-                    "config_context": c["base"], "relative_template_name": c["relname"], "history": c["history"],
+                    "config_context": repr(c["base"]), "caller_context": repr(c.get("caller")), "relative_template_name": c["relname"],
+                    "history": c["history"],
                     "sub/main.txt(include name, 2=include 4=ignore missing, import name)": c.get("main_variant"),
                     "legend": "setup writes 8 files; Em/Ei/Ej/El/Ek edit sub/main, inc, sub/inc, lib, sub/lib; Di/Dj delete "
                               "inc, sub/inc; R renders sub/main.txt, Rr renders main.txt",
